@@ -73,6 +73,11 @@ def directed_cases(seed: int, tier: str) -> typing.List[dict]:
             "regs/Alpha.1.0.dsdl": "uint8 tools\nuint8 memory_map\nuint8 str\nuint8 stream\nuint8 atomic_ops\n@sealed\n",
             "regs/Beta.1.0.dsdl": "tools.Block.1.0 a\nmemory_map.Page.1.0 b\nstr.Chunk.1.0 c\nregs.stream.Deep.1.0 d\nregs.atomic_ops.Deep.1.0 e\n@sealed\n",
             "regs/stream/Deep.1.0.dsdl": "uint8 v\n@sealed\n",
+            "regs/nav/A.1.0.dsdl": "uint8 v\n@sealed\n",
+            "regs/navigation/B.1.0.dsdl": "regs.nav.A.1.0 a\n@sealed\n",
+            "regs/navigation/deep/C.1.0.dsdl": "regs.navigation.B.1.0 b\n@sealed\n",
+            "regs/if/D.1.0.dsdl": "uint8 v\n@sealed\n",
+            "regs/iffy/sub/E.1.0.dsdl": "regs.if.D.1.0 d\n@sealed\n",
             "regs/atomic_ops/Deep.1.0.dsdl": "uint8 v\n@sealed\n",
         },
     }
@@ -203,8 +208,8 @@ def expected_paths(in_dir: str, root: str, lookups: typing.List[str], opts: dict
 
     b = LanguageContextBuilder(include_experimental_languages=True).set_target_language(opts["lang"])
     ext = opts.get("ext")
-    if ext is not None and not ext.startswith("."):
-        ext = "." + ext  # documented: nnvg heals a missing dot
+    if ext and not ext.startswith("."):
+        ext = "." + ext  # documented: nnvg heals a missing dot (the empty extension stays empty: files without one)
     if cfg_path:
         import pathlib
 
@@ -301,7 +306,7 @@ def run_case(case: dict, ctx: dict) -> dict:
             "support": r.choice([None, "never", "always", "only"]),
         }
         if r.chance(1, 4) and lang in ("c", "cpp"):
-            plan["ext"] = r.choice([".h", ".hh", "hpp", ".inc", ".h.in"])
+            plan["ext"] = r.choice([".h", ".hh", "hpp", ".inc", ".h.in", ""])  # ("" is legal: files without an extension)
         if r.chance(1, 4):
             plan["ns_stem"] = r.choice(["_ns", "index", "module", "nsfile"])
         if r.chance(1, 4) and lang in ("py", "html"):
@@ -361,7 +366,7 @@ def run_case(case: dict, ctx: dict) -> dict:
             opts["root_spelling"] = plan["root_spelling"]
             world.spell(os.path.join(world.in_dir, root), plan["root_spelling"])  # (the link exists before any snapshot)
         for k in ("ext", "ns_stem", "ns_types", "std"):
-            if plan.get(k):
+            if plan.get(k) or (k == "ext" and plan.get(k) == ""):
                 opts[k] = plan[k]
         if plan.get("support"):
             opts["gen_support"] = plan["support"]
